@@ -163,7 +163,7 @@ func generate(a *hx.Args, mode string) ([]label, int) {
 				t = l.end
 			}
 			x := r.Intn(100)
-			m := smsg{id: g.id(), coll: s.c.id, ts: t}
+			m := smsg{id: g.id(), coll: s.c.id, ts: t, pospch: r.Intn(2) == 0}
 			pk := r.Intn(3) // partition 0 = _default
 			pnames := []string{"_default", "p1", "p2"}
 			m.part, m.pname = s.c.id*100+int64(pk), pnames[pk]
@@ -186,6 +186,16 @@ func generate(a *hx.Args, mode string) ([]label, int) {
 					m.pname = "" // a delete without partition name keeps its partition id
 				} else if !known() {
 					m.part, m.pname = s.c.id*100, "_default"
+				}
+			case x < 76 && !g.added[fmt.Sprintf("%d/p1", s.c.id)] && !g.added[fmt.Sprintf("%d/p2", s.c.id)]:
+				// an import names as many partitions as the downstream has (else the map is refreshed, then it is an error)
+				m.kind, m.part, m.pname, m.rows = "import", 0, "", len(s.c.parts)
+				if r.Intn(6) == 0 && len(l.answers) == 0 {
+					m.rows++
+					if r.Intn(2) == 0 {
+						s.c.parts["late"] = s.c.tid*100 + 9
+						l.answers = []map[string]int64{copyMap(s.c.parts)}
+					}
 				}
 			case x < 80:
 				m.kind, m.id = "tick", 0
@@ -256,7 +266,7 @@ func corpus(out *cq.Out) {
 	b := &coll{id: 2, tid: 9002, name: "c2", src: [][2]string{{"src-dml_0_2v0", "src-dml_0"}}, tgt: [][2]string{{"tgt-dml_1_9002v0", "tgt-dml_1"}},
 		parts: map[string]int64{"_default": 900200}}
 	ib := func(id uint64, ts uint64) smsg {
-		return smsg{kind: "insert", id: id, coll: 2, part: 200, pname: "_default", ts: ts, rows: 1}
+		return smsg{kind: "insert", id: id, coll: 2, part: 200, pname: "_default", ts: ts, rows: 1, pospch: id%2 == 0}
 	}
 	runCase(out, 1, []label{{kind: "start", c: a}, {kind: "start", c: b}, feed(a, 0, 100, 104, ins(1, 102)), feed(b, 0, 2000, 2003, ib(2, 2002)),
 		feed(b, 0, 2003, 2004), feed(a, 1, 300, 302, ins(3, 301)), feed(b, 0, 2004, 2006, ib(4, 2005), ib(5, 2006))},
@@ -264,7 +274,9 @@ func corpus(out *cq.Out) {
 	// a two-shard collection dropped: the event only after both shards
 	d := &coll{id: 1, tid: 9001, name: "c1", src: [][2]string{{"src-dml_0_1v0", "src-dml_0"}, {"src-dml_1_1v1", "src-dml_1"}},
 		tgt: [][2]string{{"tgt-dml_0_9001v0", "tgt-dml_0"}, {"tgt-dml_1_9001v1", "tgt-dml_1"}}, parts: map[string]int64{"_default": 900100, "p1": 900101}}
-	dp := func(id uint64, ts uint64) smsg { return smsg{kind: "droppart", id: id, coll: 1, part: 101, pname: "p1", ts: ts} }
+	dp := func(id uint64, ts uint64) smsg {
+		return smsg{kind: "droppart", id: id, coll: 1, part: 101, pname: "p1", ts: ts}
+	}
 	dc := func(id uint64, ts uint64) smsg { return smsg{kind: "dropcoll", id: id, coll: 1, ts: ts} }
 	runCase(out, 1, []label{{kind: "start", c: d}, {kind: "addpart", c: d, pid: 101, pname: "p1"}, feed(d, 0, 100, 103, ins(1, 102), dp(2, 103)), feed(d, 1, 300, 303, ins(3, 302)),
 		feed(d, 1, 303, 305, dp(4, 304)), feed(d, 0, 103, 106, dc(5, 105)), feed(d, 1, 305, 308, ins(6, 306), dc(7, 308))},
@@ -281,4 +293,8 @@ func corpus(out *cq.Out) {
 	bad := smsg{kind: "insert", id: 2, coll: 1, part: 109, pname: "p9", ts: 106, rows: 1}
 	runCase(out, 1, []label{{kind: "start", c: e}, feed(e, 0, 100, 104, ins(1, 102)), feed(e, 0, 104, 107, bad), feed(e, 0, 107, 109, ins(3, 108))},
 		"corpus: unknown partition, retries exhausted (the stream goroutine used to dereference a nil pack)")
+	// imports: one that names as many partitions as the downstream has, one that does not (refresh fails: an error, no pack)
+	imp := func(id uint64, ts uint64, n int) smsg { return smsg{kind: "import", id: id, coll: 1, ts: ts, rows: n} }
+	runCase(out, 1, []label{{kind: "start", c: e}, feed(e, 0, 100, 104, imp(1, 102, 1)), feed(e, 0, 104, 107, imp(2, 106, 3)), feed(e, 0, 107, 109, ins(3, 108))},
+		"corpus: import with matching and with unresolvable partition count")
 }
